@@ -467,11 +467,25 @@ void make_handle(World &w, int i)
 // The attributes of one call: keys in a per-call order, with overwritten duplicates first.
 struct CallAttrs final : common::KeyValueIterable
 {
-  std::vector<std::pair<std::string, common::AttributeValue>> items;
+  std::vector<std::pair<nostd::string_view, common::AttributeValue>> items;
   std::vector<std::string> strs;
+  uint64_t tail_seed = 0;
+  // Keys and string values are handed over as views that are NOT NUL-terminated at their
+  // end: slices of larger buffers whose tail differs from call to call (a copy that runs to
+  // the next NUL would split equal sets into different series).
+  nostd::string_view slice(const std::string &text)
+  {
+    tail_seed = tail_seed * 6364136223846793005ull + 1442695040888963407ull;
+    std::string buf = text;
+    for (int i = 0, n = 1 + (int)((tail_seed >> 40) % 3); i < n; ++i)
+      buf += (char)('A' + (tail_seed >> (8 * i + 33)) % 26);
+    strs.push_back(buf);
+    return nostd::string_view(strs.back().data(), text.size());
+  }
   CallAttrs(int64_t id, uint64_t order_seed)
   {
-    strs.reserve(8);
+    strs.reserve(32);
+    tail_seed = order_seed ^ 0x9e3779b97f4a7c15ull;
     std::vector<int> keys;
     for (int k = 0; k < kNKeys; ++k)
       if ((id >> (2 * k)) & 3)
@@ -485,7 +499,8 @@ struct CallAttrs final : common::KeyValueIterable
     auto value = [&](int k, int v) -> common::AttributeValue {
       if (g_hash_twins && kTwinCanon[k][v])
       {
-        static const nostd::string_view one[1] = {"v1"};
+        static const char rawv1[]              = "v1ZZ";
+        static const nostd::string_view one[1] = {nostd::string_view(rawv1, 2)};
         static const int32_t arr32[2]          = {2, 3};
         static const uint8_t bytes[2]          = {118, 49};
         static const double dbl[2]             = {1.5, 2.5};
@@ -514,8 +529,7 @@ struct CallAttrs final : common::KeyValueIterable
         return common::AttributeValue((int64_t)v);
       if (k == 1)
       {
-        strs.push_back("v" + std::to_string(v));
-        return common::AttributeValue(nostd::string_view(strs.back()));
+        return common::AttributeValue(slice("v" + std::to_string(v)));
       }
       if (k == 2)
         return common::AttributeValue((bool)(v > 1));
@@ -527,8 +541,10 @@ struct CallAttrs final : common::KeyValueIterable
         return common::AttributeValue(nostd::span<const int64_t>(v == 2 ? arr2 : arr3, 2));
       }
       if (v == 3)
-        return common::AttributeValue(nostd::string_view(""));
-      static const nostd::string_view s1[2] = {"a", "b3"}, s2[2] = {"a", "b4"};
+        return common::AttributeValue(slice(""));
+      static const char raw[] = "ab3b4";  // array elements are slices too
+      static const nostd::string_view s1[2] = {nostd::string_view(raw, 1), nostd::string_view(raw + 1, 2)},
+                                      s2[2] = {nostd::string_view(raw, 1), nostd::string_view(raw + 3, 2)};
       return common::AttributeValue(nostd::span<const nostd::string_view>(v == 1 ? s1 : s2, 2));
     };
     // a duplicate of the first key with another value comes first: the later one must win
@@ -536,10 +552,10 @@ struct CallAttrs final : common::KeyValueIterable
     {
       int k = keys[0];
       int v = (int)((id >> (2 * k)) & 3);
-      items.emplace_back(kKeys[k], value(k, v % 3 + 1));
+      items.emplace_back(slice(kKeys[k]), value(k, v % 3 + 1));
     }
     for (int k : keys)
-      items.emplace_back(kKeys[k], value(k, (int)((id >> (2 * k)) & 3)));
+      items.emplace_back(slice(kKeys[k]), value(k, (int)((id >> (2 * k)) & 3)));
   }
   bool ForEachKeyValue(
       nostd::function_ref<bool(nostd::string_view, common::AttributeValue)> cb) const noexcept override
